@@ -27,7 +27,6 @@ def _canary_template(text):
     n_ins = 0
     while i < len(lines):
         ln = lines[i]
-        out.append(ln)
         if ln.startswith("//@extract") and re.search(r"\bfn=", ln) and "mode=stub" not in ln:
             j = i + 1
             has_contract = False
@@ -35,9 +34,14 @@ def _canary_template(text):
                 if re.match(r"^//@\s*(requires|ensures)\b", lines[j]):
                     has_contract = True
                 j += 1
+            out += lines[i:j]
             if has_contract:
+                # last `entry:` directive of the item, so that it follows hints that must come first (`hide(..)`)
                 out.append("//@ entry: proof { assert(false); } // @CANARY.vacuity")
                 n_ins += 1
+            i = j
+            continue
+        out.append(ln)
         i += 1
     return "\n".join(out), n_ins
 
